@@ -301,6 +301,33 @@ def run_one(cfg: dict, schedule: tuple, seed: int, depth: int, post: bool = Fals
                 w.ov[name]._my_estimated_lan = None      # a re-opened socket: the library derives its LAN estimate anew
             again(name)
             remapped[name] = (old_addr, w.public_address_of(name))
+        reunion = None
+        if cfg["start"] in ("reunion", "reunion-both"):
+            # A and C have been connected before: a complete earlier round (FIFO), after which C's NAT lost its state
+            # (new public port, empty filter), C re-announced itself to B, and A dropped C as churn does with a peer that
+            # stopped answering - while C (reunion) still lists A as verified or (reunion-both) dropped A as well.
+            ov_a0 = w.ov["A"]
+            pb0 = next((p for p in ov_a0.get_peers() if w.name_of(p) == "B"), None)
+            if pb0 is not None:
+                w.force_pick = cfg["pick"]
+                w.call("A", ov_a0.get_new_introduction, pb0)
+                w.flush()
+                for _ in range(2):
+                    w.walk_all("A")
+                    w.flush()
+            reunion = ("C" in w.peers_of("A"), "A" in w.peers_of("C"))
+            old_addr, _ = w.remap("C")
+            if w.box_of["C"] is None:
+                w.ov["C"]._my_estimated_lan = None
+            again("C")
+            remapped["C"] = (old_addr, w.public_address_of("C"))
+            for holder, gone in (("A", "C"), ("C", "A"))[:2 if cfg["start"] == "reunion-both" else 1]:
+                net = w.nodes[holder].network
+                for p in [p for p in net.verified_peers if w.name_of(p) == gone]:
+                    net.remove_peer(p)
+            w.introduced = None
+            w.offered = None
+            w.force_pick = None
         learnt = {n: tuple(w.ov[n].my_estimated_wan) == w.public_address_of(n) for n in order if n != "D1" or not b_walked}
         b_knows = w.peers_of("B")
         w.expire_sessions(B_ADDR)
@@ -313,6 +340,10 @@ def run_one(cfg: dict, schedule: tuple, seed: int, depth: int, post: bool = Fals
         if (peer_b is None and not cold) or b_knows != set(order):
             viol.append(("warmup-failed", f"{cfg}: after the warm-up walks A knows {sorted(w.peers_of('A'))}, B knows "
                          f"{sorted(b_knows)} (expected {order}); drops: {fmt_drops(w, 0)}"))
+            return {"viol": viol, "avail": [], "obs": ("warmup-failed",), "trace": []}
+        if reunion is not None and reunion != (True, True):
+            viol.append(("warmup-failed", f"{cfg}: the earlier round did not connect A and C (A has C, C has A) = {reunion}; "
+                         f"drops: {fmt_drops(w, 0)}"))
             return {"viol": viol, "avail": [], "obs": ("warmup-failed",), "trace": []}
         if cfg["start"] == "snapshot":
             # A restarted: its address book was loaded from the snapshot of a session in which it was connected to C
@@ -538,6 +569,12 @@ def base_configs(thorough: bool) -> list[dict]:
             if thorough:
                 out.append(variant(*p, style, 2, "warm", "b-walked", start="snapshot"))
                 out.append(variant(*p, style, 1, "cold", "x-walked", start="snapshot", remap="C"))
+        # earlier connection, then C's mapping renewed and A (or both) forgot the other: a second introduction
+        for p in (pairs if thorough else vary_c):
+            out.append(variant(*p, style, 1, "warm", "x-walked", start="reunion"))
+            if thorough:
+                out.append(variant(*p, style, 3, "warm", "x-walked", start="reunion"))
+                out.append(variant(*p, style, 1, "warm", "x-walked", start="reunion-both"))
     for c in out:
         c.setdefault("remap", "none")
         c.setdefault("start", "fresh")
